@@ -2735,9 +2735,13 @@ class Mesh:
                     # Found a region with a lower boundary - start stepping through
                     # y-connections from here
                     break
-                # note, if no region with connections['lower']=None is found, then some
-                # arbitrary region will be 'first_region' after this loop. This is OK,
-                # as this region must be part of a periodic group, which we will handle.
+            else:
+                # No region with connections['lower']=None is left, so the remaining
+                # regions are part of periodic groups. Start from the first one (the one
+                # with the lowest y-index), so that poloidal_distance and zShift count
+                # from the first core cell, where BOUT++ has its branch cut.
+                i = 0
+                first_region = region_list[0]
 
             # Find all the regions connected in the y-direction to 'first_region' and
             # add them to 'group'. Remove them from 'region_list' since each region can
